@@ -8,6 +8,9 @@ import Bridge.Abs
 import PtaProofs.Lemmas.Builders
 import PtaProofs.Lemmas.AnythingDedup
 import PtaProofs.Lemmas.NoMatchExact
+import Bridge.BuilderCalls
+import PtaProofs.Lemmas.DiagramHist
+import PtaProofs.Props.C07
 namespace Pta.C13
 open Pta PtaSpec
 
@@ -179,5 +182,145 @@ theorem diagram_without_tags (mt : Str → Str → Bool) (content : Str) (base :
 example : (classifyRule ([RuleOp.modulesThat, .areNamed ["a".toList], .should, .importAnything].map toRCall)).mustRaise = true := by decide
 example : classifyRule ([RuleOp.areNamed ["a".toList]].map toRCall) = .errorAtCall 0 := by decide
 example : classifyRule ([RuleOp.modulesThat, .areNamed ["a".toList], .shouldNot, .importThat, .areNamed ["b".toList]].map toRCall) = .complete := by decide
+
+/-! ### DiagramRule builder histories (`DiagramRuleOp`, `runDiagramOps`; PtaModel/Puml.lean)
+
+  `DiagramRule(should_only_rule)` followed by ANY sequence of `from_file` / `with_base_module` /
+  `base_module_included_in_module_names` calls and `assert_applies`. The specification classifier `classifyDiagram`
+  (PtaSpec/BuilderSpec.lean) only says whether a file was ever supplied and which file / base module were supplied last. -/
+
+/-- a history that never supplies a file raises the configuration error — never a verdict — for every graph, every
+    regex interpretation, both modes -/
+theorem diagram_history_raises (only : Bool) (ops : List DiagramRuleOp) (mt : Str → Str → Bool) (g : PGraph Str)
+    (h : ∀ c, DiagramRuleOp.fromFile c ∉ ops) : runDiagramOps only ops mt g = .err .improperlyConfigured :=
+  Pta.Hist.diagram_history_raises_lemma only ops mt g ((Pta.Hist.classify_incomplete_iff ops).mpr h)
+
+/-- the same through the classifier, and the classifier says "incomplete" exactly for the histories without `from_file` -/
+theorem diagram_history_incomplete (only : Bool) (ops : List DiagramRuleOp) (mt : Str → Str → Bool) (g : PGraph Str)
+    (h : classifyDiagram (ops.map toDCall) = .incomplete) : runDiagramOps only ops mt g = .err .improperlyConfigured :=
+  Pta.Hist.diagram_history_raises_lemma only ops mt g h
+
+theorem diagram_incomplete_iff (ops : List DiagramRuleOp) :
+    classifyDiagram (ops.map toDCall) = .incomplete ↔ ∀ c, DiagramRuleOp.fromFile c ∉ ops :=
+  Pta.Hist.classify_incomplete_iff ops
+
+/-- a history that supplies a file is the one-shot check `diagramAssert` on the file supplied LAST with the base module
+    supplied LAST (none if there was no `with_base_module` call; `base_module_included_in_module_names` does not undo
+    one) — so `diagram_without_tags`, `Pta.C07.diagram_file_conforms_iff`, `diagram_file_base_conforms_iff`, … apply -/
+theorem diagram_history_complete (only : Bool) (ops : List DiagramRuleOp) (mt : Str → Str → Bool) (g : PGraph Str)
+    (f : Str) (b : Option Str) (h : classifyDiagram (ops.map toDCall) = .complete f b) :
+    runDiagramOps only ops mt g = diagramAssert mt (some f) b only g :=
+  Pta.Hist.diagram_history_complete_lemma only ops mt g f b h
+
+/-- "supplied last", spelled out: the file of the last `from_file` call … -/
+theorem diagram_last_file (pre post : List DiagramRuleOp) (f : Str) (h : ∀ c, DiagramRuleOp.fromFile c ∉ post) :
+    ∃ b, classifyDiagram ((pre ++ .fromFile f :: post).map toDCall) = .complete f b := by
+  have hf : lastFile ((pre ++ DiagramRuleOp.fromFile f :: post).map toDCall) = some f := by
+    rw [List.map_append, List.map_cons]
+    refine Pta.Hist.lastFile_split _ _ f ?_
+    intro c hc
+    obtain ⟨op, hop, rfl⟩ := List.mem_map.mp hc
+    cases op with
+    | fromFile c => exact absurd hop (h c)
+    | withBaseModule p => rfl
+    | baseModuleIncluded => rfl
+  unfold classifyDiagram
+  rw [hf]
+  exact ⟨_, rfl⟩
+
+/-- … and the prefix of the last `with_base_module` call, whatever comes after it (a
+    `base_module_included_in_module_names` call included), or none when there is no such call -/
+theorem diagram_last_base (ops : List DiagramRuleOp) (f : Str) (b : Option Str)
+    (h : classifyDiagram (ops.map toDCall) = .complete f b) :
+    (∀ pre post p, ops = pre ++ .withBaseModule p :: post → (∀ q, DiagramRuleOp.withBaseModule q ∉ post) → b = some p) ∧
+    ((∀ p, DiagramRuleOp.withBaseModule p ∉ ops) → b = none) := by
+  have hb : b = lastBase (ops.map toDCall) := by
+    unfold classifyDiagram at h
+    cases hf : lastFile (ops.map toDCall) with
+    | none => rw [hf] at h; cases h
+    | some f' => rw [hf] at h; simp only [DClass.complete.injEq] at h; exact h.2.symm
+  constructor
+  · intro pre post p hops hpost
+    rw [hb, hops, List.map_append, List.map_cons]
+    refine Pta.Hist.lastBase_split _ _ p ?_
+    intro c hc
+    obtain ⟨op, hop, rfl⟩ := List.mem_map.mp hc
+    cases op with
+    | fromFile c => rfl
+    | withBaseModule q => exact absurd hop (hpost q)
+    | baseModuleIncluded => rfl
+  · intro hno
+    rw [hb, Pta.Hist.lastBase_none_iff]
+    intro c hc
+    obtain ⟨op, hop, rfl⟩ := List.mem_map.mp hc
+    cases op with
+    | fromFile c => rfl
+    | withBaseModule q => exact absurd hop (hno q)
+    | baseModuleIncluded => rfl
+
+/-- a complete history whose last file has no start/end tags raises the parsing error -/
+theorem diagram_history_no_tags (only : Bool) (ops : List DiagramRuleOp) (mt : Str → Str → Bool) (g : PGraph Str)
+    (f : Str) (b : Option Str) (h : classifyDiagram (ops.map toDCall) = .complete f b)
+    (htags : pumlBody (pyStrip f) = .error .pumlParsingError) :
+    runDiagramOps only ops mt g = .err .pumlParsingError := by
+  rw [diagram_history_complete only ops mt g f b h]
+  simp [diagramAssert, pumlParse, htags, bind, Except.bind]
+
+/-- transfer of C06 ∘ C07 to histories: the last file is a diagram of the documented subset and no base module was
+    ever supplied — the run passes exactly when the imports conform to the drawing, and it never raises -/
+theorem diagram_history_conforms_iff (only : Bool) (ops : List DiagramRuleOp) (mt : Str → Str → Bool) (a : Arch)
+    (noise1 noise2 : Str) (d : List DLine) (hwf : diagramWF d = true) (hn : isInfix "@enduml".toList noise2 = false)
+    (h : classifyDiagram (ops.map toDCall) = .complete (diagramText noise1 d noise2) none)
+    (hdom : diagramDomain a (specDiagram d) = true) :
+    (runDiagramOps only ops mt (archGraph a) = .pass ↔ conforms a (specDiagram d) only = true) ∧
+    (∀ k, runDiagramOps only ops mt (archGraph a) ≠ .err k) := by
+  rw [diagram_history_complete only ops mt (archGraph a) _ none h]
+  exact ⟨Pta.C07.diagram_file_conforms_iff mt a noise1 noise2 d hwf hn only hdom,
+         Pta.C07.diagram_file_never_errs mt a noise1 noise2 d hwf hn only hdom⟩
+
+/-- … and with a base module `q` supplied last: the file is checked as if every component were written `q.name` -/
+theorem diagram_history_base_conforms_iff (only : Bool) (ops : List DiagramRuleOp) (mt : Str → Str → Bool) (a : Arch)
+    (noise1 noise2 : Str) (d : List DLine) (hwf : diagramWF d = true) (hn : isInfix "@enduml".toList noise2 = false)
+    (q : Name) (hq : q ≠ [])
+    (h : classifyDiagram (ops.map toDCall) = .complete (diagramText noise1 d noise2) (some (render q)))
+    (hdom : diagramDomain a (prefixDiagram q (specDiagram d)) = true) :
+    (runDiagramOps only ops mt (archGraph a) = .pass ↔ conforms a (prefixDiagram q (specDiagram d)) only = true) ∧
+    (∀ k, runDiagramOps only ops mt (archGraph a) ≠ .err k) := by
+  rw [diagram_history_complete only ops mt (archGraph a) _ _ h]
+  exact Pta.C07.diagram_file_base_conforms_iff mt a noise1 noise2 d hwf hn q hq only hdom
+
+/-! non-vacuity -/
+section diagramExamples
+open Pta.C07
+
+/-- histories without a file -/
+example : ∀ c, DiagramRuleOp.fromFile c ∉ [DiagramRuleOp.withBaseModule "app".toList, .baseModuleIncluded] := by
+  intro c h; simp at h
+example : classifyDiagram ([DiagramRuleOp.withBaseModule "app".toList, .baseModuleIncluded].map toDCall) = .incomplete := by decide
+example : (runDiagramOps true [.withBaseModule "app".toList, .baseModuleIncluded] mt0 (archGraph exGood)).cls = .err .improperlyConfigured := by
+  decide +kernel
+/-- two files, two prefixes, the no-op call last: the LAST file and the LAST prefix count, the no-op clears nothing -/
+example : classifyDiagram ([DiagramRuleOp.fromFile "junk".toList, .withBaseModule "x".toList, .fromFile exShortContent,
+      .withBaseModule "app".toList, .baseModuleIncluded].map toDCall) = .complete exShortContent (some "app".toList) := by
+  decide +kernel
+example : (runDiagramOps true [.fromFile "junk".toList, .withBaseModule "x".toList, .fromFile exShortContent,
+      .withBaseModule "app".toList, .baseModuleIncluded] mt0 (archGraph exGood)).cls = .pass ∧
+    (runDiagramOps true [.fromFile "junk".toList, .withBaseModule "x".toList, .fromFile exShortContent,
+      .withBaseModule "app".toList, .baseModuleIncluded] mt0 (archGraph exBad)).cls = .fail := by
+  decide +kernel
+/-- a complete history whose last file has no tags (hypotheses of `diagram_history_no_tags`) -/
+example : classifyDiagram ([DiagramRuleOp.fromFile exShortContent, .fromFile "[a] --> [b]".toList].map toDCall)
+    = .complete "[a] --> [b]".toList none := by decide +kernel
+/-- core has no `DecidableEq (Except ε α)` -/
+local instance instDecEqExcept {ε α : Type} [DecidableEq ε] [DecidableEq α] : DecidableEq (Except ε α)
+  | .ok a, .ok b => if h : a = b then isTrue (by rw [h]) else isFalse (by intro e; cases e; exact h rfl)
+  | .error a, .error b => if h : a = b then isTrue (by rw [h]) else isFalse (by intro e; cases e; exact h rfl)
+  | .ok _, .error _ => isFalse (by intro e; cases e)
+  | .error _, .ok _ => isFalse (by intro e; cases e)
+example : pumlBody (pyStrip "[a] --> [b]".toList) = .error .pumlParsingError := by decide +kernel
+example : (runDiagramOps false [.fromFile exShortContent, .fromFile "[a] --> [b]".toList] mt0 (archGraph exGood)).cls
+    = .err .pumlParsingError := by decide +kernel
+
+end diagramExamples
 
 end Pta.C13
